@@ -258,8 +258,8 @@ func m4Hostile(sl, il, dl int) func(r *rand.Rand) []byte {
 			hl = m4HdrBits(sl, il, dl, k) + 1 + r.IntN(8)
 		}
 		pl := m4Packet(sl, il, dl, declared, data, hl)
-		if r.IntN(12) == 0 && len(pl) > 3 { // a non-zero AU-index
-			pl[2+ (sl/8)] |= byte(1 << uint(r.IntN(8)))
+		if r.IntN(12) == 0 && len(pl) > 2+(sl/8) { // a non-zero AU-index
+			pl[2+(sl/8)] |= byte(1 << uint(r.IntN(8)))
 		}
 		return pl
 	}
